@@ -644,6 +644,9 @@ func (k *c12Tracker) pathRole(p string, creating bool) string {
 		return "input2"
 	case p == k.ro.TmpDir:
 		return "tmpdir"
+	case p == filepath.Dir(k.ro.Target):
+		// the directory that holds the target: a step on it (open, fsync of the directory) belongs to the protocol
+		return "targetdir"
 	case strings.HasPrefix(p, k.ro.TmpDir+"/"):
 		if r, seen := k.temps[p]; seen {
 			return r
@@ -1701,6 +1704,26 @@ func (p c12) Run(w *mon.Worker, idx int) mon.Result {
 		}
 		caseOut["plan_items_total"], caseOut["plan_items_this_slice"] = len(items), len(mine)
 		gap := runItems(mine, nil, "fault")
+		// afterwards: whatever the failed and killed runs of this slice left behind (next to the target, in TMPDIR), a
+		// later successful edit whose output is SHORTER still leaves exactly its own output in the target
+		switch pair.Class {
+		case "edit_small", "edit_large", "long_line", "json_file", "symlink_target", "multi_doc":
+			short := pair
+			short.Expr = `{"z": 1}`
+			if err := c.reset(); err == nil {
+				exp := mon.Run(mon.RunOpts{Dir: c.work, Env: c.env(false), CPUSecs: 30, Wall: 60 * time.Second}, append([]string{w.YqBin()}, short.argv(false, c.paths)...)...)
+				if err := c.reset(); err == nil && exp.Exit == 0 && !exp.TimedOut {
+					got := mon.Run(mon.RunOpts{Dir: c.work, Env: c.env(false), CPUSecs: 30, Wall: 60 * time.Second}, append([]string{w.YqBin()}, short.argv(true, c.paths)...)...)
+					c.evals += 2
+					b, _ := os.ReadFile(c.paths[0])
+					tags["afterwards_short_edit"] = true
+					if !got.TimedOut && (got.Exit != 0 || !bytes.Equal(b, exp.Stdout)) {
+						devs = append(devs, fmt.Sprintf("[afterwards] after the fault runs of this slice (same directory, same TMPDIR) `yq -i '%s'` (exit %d) leaves %q in the target; the same command without -i prints %q\n    stderr: %s",
+							short.Expr, got.Exit, clipStr(string(b), 300), clipStr(string(exp.Stdout), 300), clipStr(string(got.Stderr), 200)))
+					}
+				}
+			}
+		}
 		return verdict(gap)
 	}
 
